@@ -150,5 +150,276 @@ pub proof fn lemma_all_names(taken: Seq<String>, fresh: Seq<String>, c: String)
 //@     proof { lemma_fresh_final(fresh_vars@, taken_vars@, variables@, variant@, arity as nat); }
 //@end
 
+//@include spec/tau_spec.rs
+
+//@fn src/translating/formula_representation/tau_star.rs :: fn construct_equality_formula
+//@ .ret r
+//@ .spec
+//@     requires term is PrecomputedTerm || term is Variable, z.sort != Sort::Symbol,
+//@     ensures val_ok(r, term, z),
+//@ .hint before "fol::Formula::AtomicFormula(fol::AtomicFormula::Comparison(fol::Comparison {"
+//@     proof {
+//@         assert forall|f: Formula| cmp1(z_var_term, Relation::Equal, rhs, f) implies #[trigger] val_ok(f, term, z) by {
+//@             assert forall|w: World, m: HT, s: Asg| #[trigger] ht_sat(f, w, m, s) == in_vals(term, s, zval(z, s)) by {
+//@                 lemma_cmp1(z_var_term, Relation::Equal, rhs, f, w, m, s);
+//@                 lemma_z_term(z, m.fc, s);
+//@             }
+//@             assert forall|k: VKey| #[trigger] fv(f, k) implies k == vkey(z) || asp_in_term(term, k) by {
+//@                 lemma_cmp1_fv(z_var_term, Relation::Equal, rhs, f, k);
+//@                 lemma_z_term(z, |a: Seq<char>, b: Sort| Val::Inf, Map::empty());
+//@             }
+//@         }
+//@     }
+//@end
+
+//@fn src/translating/formula_representation/tau_star.rs :: fn construct_total_function_formula
+//@ .ret r
+//@ .spec
+//@     requires
+//@         binop is Add || binop is Subtract || binop is Multiply,
+//@         z.sort != Sort::Symbol,
+//@         i_var.name@ != j_var.name@,
+//@     ensures total_sem(r, valti, valtj, binop, i_var.name, j_var.name, z),
+//@ .hint before "fol::Formula::QuantifiedFormula {"
+//@     proof {
+//@         let body = Formula::BinaryFormula {
+//@             connective: BinaryConnective::Conjunction,
+//@             lhs: Box::new(Formula::BinaryFormula { connective: BinaryConnective::Conjunction, lhs: Box::new(zequals), rhs: Box::new(valti) }),
+//@             rhs: Box::new(valtj) };
+//@         let sum = GeneralTerm::IntegerTerm(IntegerTerm::BinaryOperation {
+//@             op: match binop { asp::BinaryOperator::Add => BinaryOperator::Add, asp::BinaryOperator::Subtract => BinaryOperator::Subtract, _ => BinaryOperator::Multiply },
+//@             lhs: Box::new(IntegerTerm::Variable(i)), rhs: Box::new(IntegerTerm::Variable(j)) });
+//@         assert(cmp1(z_var_term, Relation::Equal, sum, zequals));
+//@         assert forall|f: Formula| (f matches Formula::QuantifiedFormula { quantification, formula } && quantification.quantifier == Quantifier::Exists
+//@                 && quantification.variables@ =~= seq![ivar(i), ivar(j)] && *formula == body)
+//@             implies #[trigger] total_sem(f, valti, valtj, binop, i, j, z) by {
+//@             assert forall|w: World, m: HT, s: Asg| #[trigger] ht_sat(f, w, m, s) == (exists|x: int, y: int| #[trigger] tr2(x, y) && {
+//@                     let s2 = s.insert(int_key(i), Val::Int(x)).insert(int_key(j), Val::Int(y));
+//@                     zval(z, s2) == Val::Int(total_op(binop, x, y)) && ht_sat(valti, w, m, s2) && ht_sat(valtj, w, m, s2) }) by {
+//@                 lemma_ex2(i, j, body, w, m, s);
+//@                 assert forall|x: int, y: int| #[trigger] tr2(x, y) implies ({
+//@                         let s2 = s.insert(int_key(i), Val::Int(x)).insert(int_key(j), Val::Int(y));
+//@                         ht_sat(body, w, m, s2) == (zval(z, s2) == Val::Int(total_op(binop, x, y)) && ht_sat(valti, w, m, s2) && ht_sat(valtj, w, m, s2)) }) by {
+//@                     let s2 = s.insert(int_key(i), Val::Int(x)).insert(int_key(j), Val::Int(y));
+//@                     lemma_cmp1(z_var_term, Relation::Equal, sum, zequals, w, m, s2);
+//@                     lemma_z_term(z, m.fc, s2);
+//@                     reveal_with_fuel(ht_sat, 3);
+//@                     reveal_with_fuel(eval_int, 3);
+//@                 }
+//@             }
+//@             assert forall|k: VKey| #[trigger] fv(f, k) implies (k == vkey(z) || fv(valti, k) || fv(valtj, k)) && k != int_key(i) && k != int_key(j) by {
+//@                 lemma_cmp1_fv(z_var_term, Relation::Equal, sum, zequals, k);
+//@                 lemma_z_term(z, |a: Seq<char>, b: Sort| Val::Inf, Map::empty());
+//@                 reveal_with_fuel(fv, 3);
+//@                 reveal_with_fuel(in_int, 3);
+//@                 lemma_bound_by_tail(seq![ivar(i), ivar(j)], k);
+//@                 assert(seq![ivar(i), ivar(j)].drop_first() =~= seq![ivar(j)]);
+//@                 lemma_bound_by_tail(seq![ivar(j)], k);
+//@                 assert(!bound_by(seq![ivar(j)].drop_first(), k));
+//@             }
+//@         }
+//@     }
+//@end
+
+//@fn src/translating/formula_representation/tau_star.rs :: fn construct_interval_formula
+//@ .ret r
+//@ .spec
+//@     requires
+//@         z.sort != Sort::Symbol,
+//@         i_var.sort == Sort::Integer, j_var.sort == Sort::Integer, k_var.sort == Sort::Integer,
+//@         i_var.name@ != j_var.name@, i_var.name@ != k_var.name@, j_var.name@ != k_var.name@,
+//@     ensures interval_sem(r, valti, valtj, i_var.name, j_var.name, k_var.name, z),
+//@ .hint before "fol::Formula::QuantifiedFormula {"
+//@     proof {
+//@         let ni = i_var.name; let nj = j_var.name; let nk = k_var.name;
+//@         let ti = GeneralTerm::IntegerTerm(IntegerTerm::Variable(ni));
+//@         let tj = GeneralTerm::IntegerTerm(IntegerTerm::Variable(nj));
+//@         let tk = GeneralTerm::IntegerTerm(IntegerTerm::Variable(nk));
+//@         let zeq = subformula->BinaryFormula_rhs;
+//@         assert(cmp1(z_var_term, Relation::Equal, tk, *zeq));
+//@         let body = Formula::BinaryFormula { connective: BinaryConnective::Conjunction, lhs: Box::new(subformula), rhs: Box::new(range) };
+//@         assert(i_var == ivar(ni) && j_var == ivar(nj) && k_var == ivar(nk));
+//@         assert forall|f: Formula| (f matches Formula::QuantifiedFormula { quantification, formula } && quantification.quantifier == Quantifier::Exists
+//@                 && quantification.variables@ =~= seq![ivar(ni), ivar(nj), ivar(nk)] && *formula == body)
+//@             implies #[trigger] interval_sem(f, valti, valtj, ni, nj, nk, z) by {
+//@             assert forall|w: World, m: HT, s: Asg| #[trigger] ht_sat(f, w, m, s) == (exists|x: int, y: int, u: int| #[trigger] tr3(x, y, u) && {
+//@                     let s2 = s.insert(int_key(ni), Val::Int(x)).insert(int_key(nj), Val::Int(y)).insert(int_key(nk), Val::Int(u));
+//@                     x <= u <= y && zval(z, s2) == Val::Int(u) && ht_sat(valti, w, m, s2) && ht_sat(valtj, w, m, s2) }) by {
+//@                 lemma_ex3(ni, nj, nk, body, w, m, s);
+//@                 assert forall|x: int, y: int, u: int| #[trigger] tr3(x, y, u) implies ({
+//@                         let s2 = s.insert(int_key(ni), Val::Int(x)).insert(int_key(nj), Val::Int(y)).insert(int_key(nk), Val::Int(u));
+//@                         ht_sat(body, w, m, s2) == (x <= u <= y && zval(z, s2) == Val::Int(u) && ht_sat(valti, w, m, s2) && ht_sat(valtj, w, m, s2)) }) by {
+//@                     let s2 = s.insert(int_key(ni), Val::Int(x)).insert(int_key(nj), Val::Int(y)).insert(int_key(nk), Val::Int(u));
+//@                     lemma_cmp1(z_var_term, Relation::Equal, tk, *zeq, w, m, s2);
+//@                     lemma_z_term(z, m.fc, s2);
+//@                     reveal_with_fuel(ht_sat, 4);
+//@                     reveal_with_fuel(sat_guards, 4);
+//@                     reveal_with_fuel(eval_int, 2);
+//@                 }
+//@             }
+//@             assert forall|k: VKey| #[trigger] fv(f, k) implies (k == vkey(z) || fv(valti, k) || fv(valtj, k))
+//@                     && k != int_key(ni) && k != int_key(nj) && k != int_key(nk) by {
+//@                 lemma_cmp1_fv(z_var_term, Relation::Equal, tk, *zeq, k);
+//@                 lemma_z_term(z, |a: Seq<char>, b: Sort| Val::Inf, Map::empty());
+//@                 reveal_with_fuel(fv, 4);
+//@                 lemma_bound3(ivar(ni), ivar(nj), ivar(nk), k);
+//@                 let c = range->AtomicFormula_0->Comparison_0;
+//@                 if in_guards(c.guards@, k) {
+//@                     let gi = choose|gi: int| 0 <= gi < c.guards@.len() && #[trigger] in_gen(c.guards@[gi].term, k);
+//@                     assert(gi == 0 || gi == 1);
+//@                 }
+//@             }
+//@         }
+//@     }
+//@end
+
+pub open spec fn qr_free_name(n: Seq<char>) -> bool { qr_free(n) }
+
+//@fn src/translating/formula_representation/tau_star.rs :: fn construct_partial_function_formula
+//@ .ret r
+//@ .spec
+//@     requires
+//@         binop is Divide || binop is Modulo,
+//@         z.sort != Sort::Symbol,
+//@         i_var.name@ != j_var.name@, qr_free_name(i_var.name@), qr_free_name(j_var.name@),
+//@         z.sort == Sort::Integer ==> qr_free_name(z.name@),
+//@         forall|k: VKey| (fv(valti, k) || fv(valtj, k)) && k.1 == Sort::Integer ==> qr_free_name(k.0),
+//@     ensures partial_sem(r, valti, valtj, binop, i_var.name, j_var.name, z),
+//@ .hint before "let qvar = choose_fresh_variable_names"
+//@     proof { axiom_indexset_len(&taken_vars); }
+//@ .hint before "fol::Formula::QuantifiedFormula {"
+//@     proof {
+//@         reveal_strlit("Q"); reveal_strlit("R");
+//@         assert(is_family(qvar@, "Q"@));
+//@         assert(is_family(rvar@, "R"@));
+//@         lemma_family_first(qvar@, "Q"@);
+//@         lemma_family_first(rvar@, "R"@);
+//@         assert(qvar@ != rvar@);
+//@         assert(qvar@ != i@ && qvar@ != j@ && rvar@ != i@ && rvar@ != j@);
+//@         let ti = GeneralTerm::IntegerTerm(IntegerTerm::Variable(i));
+//@         let tj = GeneralTerm::IntegerTerm(IntegerTerm::Variable(j));
+//@         let tq = GeneralTerm::IntegerTerm(IntegerTerm::Variable(qvar));
+//@         let tr = GeneralTerm::IntegerTerm(IntegerTerm::Variable(rvar));
+//@         let zero = GeneralTerm::IntegerTerm(IntegerTerm::Numeral(0));
+//@         let jqr = GeneralTerm::IntegerTerm(IntegerTerm::BinaryOperation {
+//@             op: BinaryOperator::Add,
+//@             lhs: Box::new(IntegerTerm::BinaryOperation { op: BinaryOperator::Multiply, lhs: Box::new(IntegerTerm::Variable(j)), rhs: Box::new(IntegerTerm::Variable(qvar)) }),
+//@             rhs: Box::new(IntegerTerm::Variable(rvar)) });
+//@         assert(cmp1(ti, Relation::Equal, jqr, iequals));
+//@         let c1 = conditions->BinaryFormula_lhs->BinaryFormula_lhs;
+//@         let c2 = conditions->BinaryFormula_lhs->BinaryFormula_rhs;
+//@         let c3 = conditions->BinaryFormula_rhs;
+//@         assert(cmp1(tj, Relation::NotEqual, zero, *c1));
+//@         assert(cmp1(tr, Relation::GreaterEqual, zero, *c2));
+//@         assert(cmp1(tr, Relation::Less, tj, *c3));
+//@         let zt = if binop is Divide { tq } else { tr };
+//@         assert(cmp1(z_var_term, Relation::Equal, zt, zequals));
+//@         let body = Formula::BinaryFormula { connective: BinaryConnective::Conjunction, lhs: Box::new(subformula), rhs: Box::new(zequals) };
+//@         assert forall|f: Formula| (f matches Formula::QuantifiedFormula { quantification, formula } && quantification.quantifier == Quantifier::Exists
+//@                 && quantification.variables@ =~= seq![ivar(i), ivar(j), ivar(qvar), ivar(rvar)] && *formula == body)
+//@             implies #[trigger] partial_sem(f, valti, valtj, binop, i, j, z) by {
+//@             assert forall|w: World, m: HT, s: Asg| #[trigger] ht_sat(f, w, m, s) == (exists|x: int, y: int, q: int, rr: int| #[trigger] tr4(x, y, q, rr) && {
+//@                     let s2 = s.insert(int_key(i), Val::Int(x)).insert(int_key(j), Val::Int(y)).insert(int_key(qvar), Val::Int(q)).insert(int_key(rvar), Val::Int(rr));
+//@                     x == y * q + rr && y != 0 && 0 <= rr < y
+//@                     && zval(z, s2) == Val::Int(if binop is Divide { q } else { rr }) && ht_sat(valti, w, m, s2) && ht_sat(valtj, w, m, s2) }) by {
+//@                 lemma_ex4(i, j, qvar, rvar, body, w, m, s);
+//@                 assert forall|x: int, y: int, q: int, rr: int| #[trigger] tr4(x, y, q, rr) implies ({
+//@                         let s2 = s.insert(int_key(i), Val::Int(x)).insert(int_key(j), Val::Int(y)).insert(int_key(qvar), Val::Int(q)).insert(int_key(rvar), Val::Int(rr));
+//@                         ht_sat(body, w, m, s2) == (x == y * q + rr && y != 0 && 0 <= rr < y
+//@                             && zval(z, s2) == Val::Int(if binop is Divide { q } else { rr }) && ht_sat(valti, w, m, s2) && ht_sat(valtj, w, m, s2)) }) by {
+//@                     let s2 = s.insert(int_key(i), Val::Int(x)).insert(int_key(j), Val::Int(y)).insert(int_key(qvar), Val::Int(q)).insert(int_key(rvar), Val::Int(rr));
+//@                     lemma_cmp1(ti, Relation::Equal, jqr, iequals, w, m, s2);
+//@                     lemma_cmp1(tj, Relation::NotEqual, zero, *c1, w, m, s2);
+//@                     lemma_cmp1(tr, Relation::GreaterEqual, zero, *c2, w, m, s2);
+//@                     lemma_cmp1(tr, Relation::Less, tj, *c3, w, m, s2);
+//@                     lemma_cmp1(z_var_term, Relation::Equal, zt, zequals, w, m, s2);
+//@                     lemma_z_term(z, m.fc, s2);
+//@                     reveal_with_fuel(ht_sat, 5);
+//@                     reveal_with_fuel(eval_int, 4);
+//@                 }
+//@             }
+//@             assert forall|k: VKey| #[trigger] fv(f, k) implies (k == vkey(z) || fv(valti, k) || fv(valtj, k))
+//@                     && k != int_key(i) && k != int_key(j) && k != int_key(qvar) && k != int_key(rvar) by {
+//@                 lemma_cmp1_fv(ti, Relation::Equal, jqr, iequals, k);
+//@                 lemma_cmp1_fv(tj, Relation::NotEqual, zero, *c1, k);
+//@                 lemma_cmp1_fv(tr, Relation::GreaterEqual, zero, *c2, k);
+//@                 lemma_cmp1_fv(tr, Relation::Less, tj, *c3, k);
+//@                 lemma_cmp1_fv(z_var_term, Relation::Equal, zt, zequals, k);
+//@                 lemma_z_term(z, |a: Seq<char>, b: Sort| Val::Inf, Map::empty());
+//@                 reveal_with_fuel(fv, 5);
+//@                 reveal_with_fuel(in_int, 4);
+//@                 lemma_bound4(ivar(i), ivar(j), ivar(qvar), ivar(rvar), k);
+//@             }
+//@             assert(partial_sem_with(f, valti, valtj, binop, i, j, qvar, rvar, z));
+//@         }
+//@     }
+//@end
+
+//@fn src/translating/formula_representation/tau_star.rs :: fn val
+//@ .ret r
+//@ .spec
+//@     requires z.sort != Sort::Symbol, z.sort == Sort::Integer ==> qr_free(z.name@),
+//@     ensures val_ok(r, t, z),
+//@     decreases term_size(t),
+//@ .hint before "taken_vars.insert(z.clone());"
+//@     let ghost tv0 = taken_vars@;
+//@ .hint before "let mut fresh_ivar = choose_fresh_variable_names"
+//@     proof {
+//@         axiom_indexset_len(&taken_vars);
+//@         assert(taken_vars@.contains(z)) by { lemma_seq_insert_contains(tv0, z, z); }
+//@     }
+//@ .hint before "match t {"
+//@     let ghost zi = choose|zi: int| 0 <= zi < taken_vars@.len() && taken_vars@[zi] == z;
+//@     proof {
+//@         assert(taken_vars@[zi].name@ == z.name@);
+//@         assert(is_family(var1.name@, "I"@));
+//@         assert(is_family(var2.name@, "J"@));
+//@         assert(is_family(var3.name@, "K"@));
+//@         lemma_families(var1.name@, var2.name@, var3.name@);
+//@         assert(var1 == ivar(var1.name) && var2 == ivar(var2.name) && var3 == ivar(var3.name));
+//@         assert(z.name@ != var1.name@ && z.name@ != var2.name@ && z.name@ != var3.name@);
+//@     }
+//@ .hint after "let valtj = val(*arg, var2.clone());"
+//@     proof {
+//@         assert forall|f: Formula| total_sem(f, valti, valtj, asp::BinaryOperator::Subtract, var1.name, var2.name, z) implies #[trigger] val_ok(f, t, z) by {
+//@             lemma_val_unary(t, var1.name, var2.name, z, valti, valtj, f);
+//@         }
+//@     }
+//@ .hint after "let valtj = val(*rhs, var2.clone());"
+//@     proof {
+//@         assert forall|f: Formula| (op is Add || op is Subtract || op is Multiply) && total_sem(f, valti, valtj, op, var1.name, var2.name, z) implies #[trigger] val_ok(f, t, z) by {
+//@             lemma_val_total(t, var1.name, var2.name, z, valti, valtj, f);
+//@         }
+//@         assert forall|f: Formula| (op is Divide || op is Modulo) && partial_sem(f, valti, valtj, op, var1.name, var2.name, z) implies #[trigger] val_ok(f, t, z) by {
+//@             lemma_val_partial(t, var1.name, var2.name, z, valti, valtj, f);
+//@         }
+//@         assert forall|f: Formula| op is Interval && interval_sem(f, valti, valtj, var1.name, var2.name, var3.name, z) implies #[trigger] val_ok(f, t, z) by {
+//@             lemma_val_interval(t, var1.name, var2.name, var3.name, z, valti, valtj, f);
+//@         }
+//@         assert forall|k: VKey| (fv(valti, k) || fv(valtj, k)) && k.1 == Sort::Integer implies qr_free(k.0) by {
+//@             lemma_asp_keys_general(*lhs, k);
+//@             lemma_asp_keys_general(*rhs, k);
+//@         }
+//@     }
+//@end
+
 } // verus!
+pub mod asp {
+    use vstd::prelude::*;
+    use vstd::std_specs::iter::IteratorSpec;
+    use super::{IndexSet, seq_extend, seq_insert, lemma_seq_extend_contains};
+    verus! {
+    broadcast use {super::axiom_string_ext, super::axiom_vec_ext};
+//@include units/asp_types.inc
+impl Term {
+//@fn src/syntax_tree/asp/mini_gringo.rs :: impl Term :: fn variables
+//@ .spec
+//@     decreases self,
+//@end
+}
+    } // verus!
+}
+impl std::fmt::Display for Variable { fn fmt(&self, _f: &mut std::fmt::Formatter<'_>) -> std::fmt::Result { Ok(()) } }
+impl std::fmt::Display for asp::Variable { fn fmt(&self, _f: &mut std::fmt::Formatter<'_>) -> std::fmt::Result { Ok(()) } }
+pub mod syntax_tree { pub mod asp { pub use crate::asp as mini_gringo; } pub mod fol { pub mod sigma_0 { pub use crate::*; } } }
 fn main() {}
